@@ -26,6 +26,10 @@ type MemFS struct {
 	recs  []memRecord
 	rng   *rt.Rand
 	mark  int
+
+	UniqueTags  bool // one tag per stored version
+	Conditional bool // evaluate If-Match / If-None-Match (with the public helpers)
+	tagSeq      int
 }
 
 type memNode struct {
@@ -70,7 +74,45 @@ func NewMemFS(seed uint64) *MemFS {
 }
 
 func (m *MemFS) meta(p string, data []byte) webdav.FileInfo {
-	return webdav.FileInfo{Path: p, Size: int64(len(data)), ModTime: exoticTime(m.rng), MIMEType: rt.Pick(m.rng, exoticMimes), ETag: rt.Pick(m.rng, exoticTags)}
+	tag := rt.Pick(m.rng, exoticTags)
+	if m.UniqueTags {
+		// every stored version gets its own tag (a strong validator): an exotic
+		// base plus a version counter
+		m.tagSeq++
+		tag = fmt.Sprintf("%s#%d", tag, m.tagSeq)
+	}
+	return webdav.FileInfo{Path: p, Size: int64(len(data)), ModTime: exoticTime(m.rng), MIMEType: rt.Pick(m.rng, exoticMimes), ETag: tag}
+}
+
+// checkCond evaluates If-Match / If-None-Match the way the statement of C04
+// spells it out, using nothing but the public ConditionalMatch helpers - what
+// any backend author would write.
+func (m *MemFS) checkCond(n *memNode, ifMatch, ifNoneMatch webdav.ConditionalMatch) error {
+	if !m.Conditional {
+		return nil
+	}
+	tag := ""
+	if n != nil {
+		tag = n.info.ETag
+		if n.info.IsDir {
+			tag = "collection-tag"
+		}
+	}
+	if ifMatch.IsSet() {
+		if ok, err := ifMatch.MatchETag(tag); err != nil {
+			return webdav.NewHTTPError(http.StatusBadRequest, err)
+		} else if !ok {
+			return webdav.NewHTTPError(http.StatusPreconditionFailed, fmt.Errorf("memfs: If-Match failed"))
+		}
+	}
+	if ifNoneMatch.IsSet() {
+		if ok, err := ifNoneMatch.MatchETag(tag); err != nil {
+			return webdav.NewHTTPError(http.StatusBadRequest, err)
+		} else if ok {
+			return webdav.NewHTTPError(http.StatusPreconditionFailed, fmt.Errorf("memfs: If-None-Match failed"))
+		}
+	}
+	return nil
 }
 
 func (m *MemFS) norm(name string) (string, error) {
@@ -161,6 +203,9 @@ func (m *MemFS) Create(ctx context.Context, name string, body io.ReadCloser, opt
 	if old != nil && old.info.IsDir {
 		return nil, false, webdav.NewHTTPError(http.StatusMethodNotAllowed, fmt.Errorf("memfs: is a collection"))
 	}
+	if err := m.checkCond(old, opts.IfMatch, opts.IfNoneMatch); err != nil {
+		return nil, false, err
+	}
 	data, err := io.ReadAll(body)
 	if err != nil {
 		return nil, false, err
@@ -191,6 +236,9 @@ func (m *MemFS) RemoveAll(ctx context.Context, name string, opts *webdav.RemoveA
 	}
 	if m.nodes[p] == nil {
 		return notFound(p)
+	}
+	if err := m.checkCond(m.nodes[p], opts.IfMatch, opts.IfNoneMatch); err != nil {
+		return err
 	}
 	if p == "/" {
 		return webdav.NewHTTPError(http.StatusForbidden, fmt.Errorf("memfs: the root stays"))
@@ -255,6 +303,10 @@ func (m *MemFS) copyMove(op, name, dest string, noRec, noOw bool) (bool, error) 
 	for _, q := range ks {
 		n := *m.nodes[q]
 		n.info.Path = d + strings.TrimPrefix(q, p)
+		if m.UniqueTags && !n.info.IsDir {
+			m.tagSeq++
+			n.info.ETag = fmt.Sprintf("%s#%d", rt.Pick(m.rng, exoticTags), m.tagSeq)
+		}
 		m.nodes[n.info.Path] = &n
 	}
 	if op == "Move" {
@@ -278,7 +330,13 @@ func (ex *executor) mem() *MemFS {
 	return m
 }
 
-func (ex *executor) newMemFS() webdav.FileSystem { return NewMemFS(ex.plan.Config.MemfsSeed) }
+func (ex *executor) newMemFS() webdav.FileSystem {
+	m := NewMemFS(ex.plan.Config.MemfsSeed)
+	if ex.plan.Profile == "conditional-memfs" {
+		m.UniqueTags, m.Conditional = true, true
+	}
+	return m
+}
 
 func (ex *executor) memSetup(op SetupOp) {
 	m := ex.mem()
